@@ -35,7 +35,7 @@ if [ "$npass" -ge 70 ] && [ "$badfail" -eq 0 ] && [ "$with" -eq 1 ] && [ "$witho
   python3 - <<PY
 import json
 m=json.load(open("$out/meta.json"))
-m["property"]="$id".replace("R2-","")
+import re; m["property"]=re.sub(r"^R\d+-","","$id")
 m["confirmed"]="tools/confirm_mutant.sh in a fresh worktree: patch applies to clean HEAD; existing tests passed=$npass, unexpected failures=$badfail; demo ($demos) fails with the patch and passes without it"
 json.dump(m,open("/verif/seeded/$id/meta.json","w"),indent=1)
 PY
